@@ -31,6 +31,7 @@ if [ -n "$BENIGN_ALT" ]; then
 else
   git -C /repo checkout -q -- .; git -C /repo clean -fdq
 fi
+if [ -n "$BENIGN_NOMETA" ]; then echo "benign $id suite $suite alarms: ${alarms:-none} (checks:$res)"; exit 0; fi
 python3 - "$id" "$suite" "$alarms" "$res" <<'PY'
 import json,sys
 id,suite,alarms,res=sys.argv[1:]
